@@ -10,7 +10,7 @@ txt = ("### 0.6 Seeded changes (sub-agents, one property text and a scratch work
        "Each change compiles, keeps the 39 baseline tests passing, and makes its own demonstration fail; confirmed in a scratch worktree by "
        "`tools/seedconfirm.py`, stored in `/verif/seeded/<id>/` (patch.diff, demo.py, meta.json with the check results), then applied to /repo, "
        "checked with the quick tier at seed 1, and reverted (the third round ran the same checks from rsync copies of /verif against scratch worktrees, "
-       "`SEED_REPO`/`SEED_VERIF`, so that /repo stayed free; every change was finally re-run with `tools/seedrecheck.py`).  Four rounds (from the second on the agents were told what had "
+       "`SEED_REPO`/`SEED_VERIF`, so that /repo stayed free; every change was finally re-run with `tools/seedrecheck.py`).  Five rounds (from the second on the agents were told what had "
        f"been tried and asked for other mechanisms; the third asked for two changes per property that need something specific to manifest): {n} changes, all reported by the final "
        "checks.  Misses of earlier versions of the checks, and what they led to: "
        "C06-2 (the failing magic is now found by a checker that still loads when the table lemma breaks; stale .vo files are removed), "
@@ -36,7 +36,11 @@ txt = ("### 0.6 Seeded changes (sub-agents, one property text and a scratch work
        "through the pypy32_fix adapter, plus a synthetic PyPy 3.2 code object with bytes constants), C13-8 (PyPy-magic twins 256/336/384 of files compiled by 3.8-3.10), C16-7 (native code "
        "objects with one field varied at a time: co_nlocals, co_stacksize, flag bits, first line, non-ASCII name), C07-5 (a 2100-line gap source: three-chunk varints), C18-5/C18-6 (the "
        "scanner flags calls of interpreter-global setters such as sys.set_int_max_str_digits and one-shot iterators bound at module level), C05-8 (first_line shift of line 0: reported by C20), "
-       "C12-7/C12-8 and C03-7/C03-8 (table and decoder changes reported by C09/C04, C05, C02, C10/C01).  C12-1 is a label-finder change: it is reported by C04; C12 takes jump targets from that same label finder.  "
+       "C12-7/C12-8 and C03-7/C03-8 (table and decoder changes reported by C09/C04, C05, C02, C10/C01).  Fifth round (12 of 38 missed by the check of their own property at first): "
+       "C04-9 (the public xdis.findlabels is now tied on the same code strings), C05-10 (the public findlinestarts with three-component versions), C05-9 (a function with more than 256 "
+       "constants in C20's objects: lines that start with EXTENDED_ARG), C07-8 (constants shared by several code objects in the sources), C08-10 (unlisted patch releases must get their "
+       "series' table), C17-10 (parse_positions per code unit), C18-8 (Dropbox files that fail part-way in the histories), C02-10 (operands of 2^31 and more in 3.6-3.10 word code), "
+       "C01-9/C01-10, C12-9/C12-10, C20-7, C02-9 (reported by C10, C05, C17, C04, C09).  C12-1 is a label-finder change: it is reported by C04; C12 takes jump targets from that same label finder.  "
        "'(no-failing-input-found)' marks reports where the broken obligation is named but no concrete input was searched out.\n\n"
        "| id | change | reported by |\n|---|---|---|\n" + "\n".join(rows) + "\n\n")
 p = '/verif/DESIGN.md'
